@@ -538,7 +538,9 @@ class Runner:
             shape = self.min_shape(t, vs, op)
             if attempt is not None and self.classify(t, vs, op) == 'history':
                 shape = 'wrapper-only'      # the bare term round-trips; the enclosing form does not
-            sig = 'roundtrip/%s/input/%s' % (what, shape)
+            # the same input-level defect shows up whether the term is printed alone, inside a sequent or inside an
+            # instantiation: one signature per shape; only failures of the enclosing form itself name the form
+            sig = 'roundtrip/%s/input/%s' % (what if shape == 'wrapper-only' else 'term', shape)
         self.switch(d)
         self.report(sig, 'roundtrip', 'document %d (%s %s limit %s): %s %s does not round-trip (%s; settings unicode=%s line_length=%s highlight=%s; %s)' % (
             d.idx, d.kind(), d.theory, d.limit, what, safe_str(t), 'raises %r' % (exc,) if exc else 'parses to a different term',
